@@ -58,7 +58,7 @@ KANI_C09 = K.make_engine({'time_control.rs': 'time_control_harness.rs'},
                          [('time_control.rs', 'calculate_time_slice', 'GameTime', 'time_control_contract.txt')],
                          [{'name': 'c09_contract_full_domain', 'timeout': 900, 'what': 'function contract of GameTime::calculate_time_slice over the full i128 x Option<u32> domain, both colours: slice <= mover clock when clock > 100; slice == 0 when clock <= 100 and increment <= 0'},
                           {'name': 'c09_cover_regimes', 'timeout': 900, 'what': 'reachability of the three regimes behind the precondition (vacuity guard)'},
-                          {'name': 'c09_bounded_small_clock', 'timeout': 900, 'bounded': 'mover clock 101..=355 ms, movestogo absent or 1..=3, all other fields arbitrary i128',
+                          {'name': 'c09_bounded_small_clock', 'timeout': 900, 'bounded': 'mover clock 101..=355 ms, movestogo absent or 1..=3 or 31..=33, all other fields arbitrary i128',
                            'what': '|slice*mtg*10 - 8*(clock-100)| <= 10*mtg on the small-clock band'},
                           {'name': 'c09_bounded_eighty_percent', 'timeout': 1800, 'tier': 'thorough', 'bounded': 'mover clock in i16, movestogo absent or 1..=64, all other fields arbitrary i128',
                            'what': '|slice*mtg*10 - 8*(clock-100)| <= 10*mtg, i.e. within 1 ms of 0.8*(clock-100)/mtg; independent of the other side'}])
